@@ -177,7 +177,7 @@ func stripPadding(buf []byte) ([]byte, error) {
 		return nil, errors.New("buffer is too short for padding")
 	}
 	paddingBytes := int(buf[len(buf)-1])
-	if paddingBytes > len(buf)-1 {
+	if paddingBytes > len(buf) {
 		return nil, errors.New("buffer is too short for padding")
 	}
 	if paddingBytes < 1 {
